@@ -305,5 +305,6 @@ h("C13", "c13::c13_cut_last_zone_at_730", tier="thorough", funcs=CFM, space="one
 for k, z in ((5, 0), (6, 0), (7, 0), (13, 2), (16, 2), (20, 1)):
     h("C13", "c13::c13_truncated_at_%d%s" % (k, "_z%d" % z if z and k != 20 else ""), tier="probe", funcs=CFM, space="body cut after %d bytes: segment count symbolic in 1..=255, date/time symbolic, first azimuth declares %d zones with symbolic values" % (k, z), bounds="concrete cut point %d; unwind 10" % k, mem=12, timeout=1200)
 h("C13", "c13::c13_truncated_early", tier="probe", funcs=CFM, space="one declared segment, zero zone counts, every cut point 0..=30", bounds="L = 30; unwind 16", mem=12, timeout=1800, unwind_is_violation=True)
+h("C09", "c09::c09_merge_stable_11_10_concrete", funcs=MG, space="one concrete pair of sweeps (11 + 10 radials, azimuth numbers colliding pairwise: 21 elements, the smallest input beyond the insertion-sort threshold)", bounds="concrete input; unwind 24", mfs=16384, mem=16, timeout=1500)
 h("C09", "c09::c09_merge_stable_12_12_concrete", tier="thorough", funcs=MG, space="one concrete pair of 12-radial sweeps with pairwise colliding azimuth numbers (24 elements: beyond the insertion-sort threshold)", bounds="concrete input; unwind 26", mfs=16384, mem=24, timeout=3600)
 h("C14", "c14::c14_probe_concrete", tier="thorough", funcs=SUMF, space="one concrete list R(1) R(1) S R(1) O(13) O(13)", bounds="concrete input; unwind 10", mfs=32768, mem=20, timeout=2400)
